@@ -48,7 +48,7 @@ func (c *Client) Subscribe(ctx context.Context, params *SubscriptionParameters, 
 	stats.Subscription().Add("Count", 1)
 
 	// start the publish loop if it isn't already running
-	c.resumech <- struct{}{}
+	c.resumeSubscriptions(ctx)
 
 	sub := &Subscription{
 		SubscriptionID:            res.SubscriptionID,
@@ -348,19 +348,26 @@ func (c *Client) notifySubscription(ctx context.Context, sub *Subscription, noti
 
 // pauseSubscriptions suspends the publish loop by signalling the pausech.
 // It has no effect if the publish loop is already paused.
+//
+// The signal never blocks: callers hold subMux (forgetSubscription) or are
+// the publish loop itself, which is the only reader of the channel. If the
+// channel is full a pause signal is already pending and this one is redundant.
 func (c *Client) pauseSubscriptions(ctx context.Context) {
 	select {
-	case <-ctx.Done():
 	case c.pausech <- struct{}{}:
+	default:
 	}
 }
 
 // resumeSubscriptions restarts the publish loop by signalling the resumech.
 // It has no effect if the publish loop is not paused.
+//
+// Like pauseSubscriptions it never blocks: a full channel means that a
+// resume signal is already pending.
 func (c *Client) resumeSubscriptions(ctx context.Context) {
 	select {
-	case <-ctx.Done():
 	case c.resumech <- struct{}{}:
+	default:
 	}
 }
 
